@@ -6,6 +6,7 @@ import (
 	"fmt"
 	"os"
 	"sort"
+	"strings"
 	"time"
 
 	"verifsim/choice"
@@ -103,14 +104,14 @@ func runBatch(prop string, seed uint64, from, to int, out string, maxS float64, 
 			if v != nil {
 				d = v.Sig
 			}
-			bo.EventLog = append(bo.EventLog, fmt.Sprintf("%d %s %s %s", i, e.Name, shortHash(fmt.Sprint(src.Values())), d))
+			bo.EventLog = append(bo.EventLog, fmt.Sprintf("%d %s %s %s %s", i, e.Name, shortHash(fmt.Sprint(src.Values())), LastRunDigest, d))
 		}
 		stuck := bo.Stats.Outcomes["deadlock"]+bo.Stats.Outcomes["stepcap"] > 0
 		if v != nil {
 			v.Seed, v.Index, v.Choices = seed, i, src.Values()
 			if !sigSeen[v.Sig] && len(bo.Violations) < 30 {
 				sigSeen[v.Sig] = true
-				if !stuck && shrinkBudget > 0 {
+				if !stuck && shrinkBudget > 0 && !strings.HasPrefix(v.Sig, "data-race:") { // a race is reported once per process: it cannot be re-observed here
 					shrinkViolation(check, e, v, shrinkBudget)
 				}
 				bo.Violations = append(bo.Violations, v)
@@ -197,8 +198,22 @@ func replayFile(path string) int {
 	}
 	p := *v.Plan
 	p.Sched.Replay = v.Trace
-	out := RunPlan(e, &p)
-	nv := judge(e, &p, out)
+	attempts := 1
+	if strings.HasPrefix(v.Sig, "data-race:") {
+		// the schedule replays exactly, but whether the race detector still holds the conflicting
+		// earlier access in its 4-slot shadow cell depends on its internal clocks: give it a few
+		// identical executions (each on a fresh container) before concluding
+		attempts = 25
+	}
+	var nv *Violation
+	var out *RunOut
+	for a := 0; a < attempts && nv == nil; a++ {
+		out = RunPlan(e, &p)
+		nv = judge(e, &p, out)
+		if nv != nil && a > 0 {
+			fmt.Printf("note: reproduced on execution %d of the same schedule\n", a+1)
+		}
+	}
 	if nv == nil {
 		fmt.Printf("NOT-REPRODUCED property=%s recorded-sig=%s\n", v.Property, v.Sig)
 		return 0
